@@ -155,6 +155,7 @@ void sched_on_point(uint32_t (*cb)(void)) { on_point = cb; }
 int sched_self(void) { return self_id; }
 int sched_active(void) { return active; }
 int sched_steps(void) { return step; }
+int sched_unfinished_others(void) { int n = 0; for (int t = 0; t < nth; t++) if (t != self_id && th[t].st != FIN) n++; return n; }
 void sched_note(const char *fmt, ...) {
   if (!tr) return; char b[400]; va_list ap; va_start(ap, fmt); int n = vsnprintf(b, sizeof b, fmt, ap); va_end(ap);
   if (n < 0) return; if (n >= (int)sizeof b) n = sizeof b - 1;
